@@ -200,7 +200,11 @@ func (g *G) genDecls() {
 			m.Hidden = true
 		}
 		if g.F.As && g.chance("as", 15) {
-			as := pick(g, "asname", []string{"line-count", "x.y", "renamed", "a b"})
+			names := []string{"line-count", "x.y", "renamed", "a b"}
+			if g.F.HostileStrings {
+				names = append(names, "say \"hi\"", "\"", "back\\slash", "q\" as \"r")
+			}
+			as := pick(g, "asname", names)
 			if !usedAs[as] {
 				usedAs[as] = true
 				m.As = as
